@@ -2,6 +2,7 @@ import Chess.Lemmas.Pseudo
 import Chess.Lemmas.Attack
 import Chess.Lemmas.Generated
 import Chess.Lemmas.Reach
+import Chess.Lemmas.Legal
 
 /-!
 # C01 — generated moves are exactly the legal moves of chess
@@ -12,7 +13,7 @@ L1 attack detection = the rules' `attacked`; L2 every generator = the rules' `ps
 kind (the one documented difference: the engine drops king steps next to the enemy king, which
 are illegal anyway); the unchecked list has no repetition; the filter is characterised; the final
 assembly `checked = legal` (L3/L4: the not-in-check shortcut and the filter test read through the
-refinement square C02) is in `Chess/Lemmas/Legal.lean` when present — see `Props/C01b.lean`.
+refinement square C02) is `the_main_theorem` below.
 -/
 namespace Chess.Props.C01
 open Chess Chess.Game
@@ -67,6 +68,55 @@ theorem checked_list_characterised (hw : g.WF) (m : Move) :
 theorem checked_sublist_of_unchecked (hw : g.WF) : (g.getMoves true).1.Sublist (g.getMoves false).1 :=
   Game.checked_sublist_unchecked hw
 
+
+/-! ### The property at full strength -/
+open Chess.Legal in
+/-- **C01** For every position reachable by legal play (moves played into the record or
+search-style) from a start position that is sane by the rules (`Spec.sane`: one king each,
+possible material, no pawn on the first/eighth rank, side not to move not in check, castling
+rights and en-passant file backed by the board): the checked list, read as moves of the rules, is
+a PERMUTATION of the legal moves (none missing, none extra), has no repetition, is a sub-list of
+the unchecked list, and every move of the unchecked list is a valid piece move whose only possible
+fault is that it leaves the mover's own king attacked. -/
+theorem the_main_theorem {g0 g : Game} (hw : g0.WF) (h0 : Spec.sane g0.abs = true) (h : LegalReach g0 g) :
+    ((g.getMoves true).1.map Move.toSpec).Perm (Spec.legalList g.abs)
+    ∧ (g.getMoves true).1.Nodup
+    ∧ (g.getMoves true).1.Sublist (g.getMoves false).1
+    ∧ ∀ m ∈ (g.getMoves false).1, Spec.pseudo g.abs m.toSpec = true ∧
+        (m ∉ (g.getMoves true).1 → Spec.inCheck (Spec.play g.abs m.toSpec) g.player = true) :=
+  Chess.Legal.C01 hw h0 h
+
+open Chess.Legal in
+/-- …for a start position imported from FEN text: no hypothesis beyond sanity of the text's position. -/
+theorem from_imported_text {s : List Char} {g0 g : Game} (hok : Game.ofFen s = .ok g0)
+    (h0 : Spec.sane g0.abs = true) (h : LegalReach g0 g) :
+    ((g.getMoves true).1.map Move.toSpec).Perm (Spec.legalList g.abs)
+    ∧ (g.getMoves true).1.Nodup
+    ∧ (g.getMoves true).1.Sublist (g.getMoves false).1
+    ∧ ∀ m ∈ (g.getMoves false).1, Spec.pseudo g.abs m.toSpec = true ∧
+        (m ∉ (g.getMoves true).1 → Spec.inCheck (Spec.play g.abs m.toSpec) g.player = true) :=
+  Chess.Legal.C01_imported hok h0 h
+
+open Chess.Legal in
+/-- the texts the engine prints for its checked list are exactly the texts of the legal moves -/
+theorem legal_move_texts {g : Game} (hs : SaneG g) :
+    ((g.getMoves true).1.map Move.uci).Perm ((Spec.legalList g.abs).map Spec.UciMove.text) :=
+  checked_uci_perm hs
+
+open Chess.Legal in
+/-- the not-in-check shortcut of the filter is sound (the lemma specific to this engine) -/
+theorem shortcut_is_sound {g : Game} (hs : SaneG g) {pc : Piece} {start stop : Pos}
+    {cap : Option Piece} (hm : Move.normal pc start stop cap ∈ g.pseudoMoves)
+    (hsafe : g.isTargeted (g.kingPos g.player) g.player = false)
+    (hskip : skipsCheck (g.kingPos g.player) (.normal pc start stop cap) = true) :
+    Spec.inCheck (Spec.play g.abs (Move.normal pc start stop cap).toSpec) g.player = false :=
+  shortcut_sound hs hm hsafe hskip
+
+open Chess.Legal in
+/-- non-vacuity: the standard start position is imported, is sane, and meets every hypothesis -/
+theorem start_position_qualifies : ∃ g, Game.ofFen startFen = .ok g ∧ g.abs = startPos ∧ SaneG g :=
+  start_saneG
+
 end Chess.Props.C01
 
 #print axioms Chess.Props.C01.attack_scan_is_the_rules
@@ -76,3 +126,8 @@ end Chess.Props.C01
 #print axioms Chess.Props.C01.no_move_repeated
 #print axioms Chess.Props.C01.checked_list_characterised
 #print axioms Chess.Props.C01.checked_sublist_of_unchecked
+#print axioms Chess.Props.C01.the_main_theorem
+#print axioms Chess.Props.C01.from_imported_text
+#print axioms Chess.Props.C01.legal_move_texts
+#print axioms Chess.Props.C01.shortcut_is_sound
+#print axioms Chess.Props.C01.start_position_qualifies
